@@ -145,13 +145,33 @@ func (l *L2) LoginDone() <-chan struct{} { return l.loginOK }
 // SendLoginAsync hands a valid login to Read without waiting for RemoteLogin to finish.
 func (l *L2) SendLoginAsync(id, pid int) bool {
 	rul := l.W.MakeLogin(id, pid)
+	d := 5 * time.Second
+	if sendTimeouts.Load() > 4 {
+		d = 100 * time.Millisecond // Read does not take logins (any more): established, do not spend hours on it
+	}
 	select {
 	case l.logins <- rul:
 		return true
-	case <-time.After(5 * time.Second):
+	case <-time.After(d):
+		sendTimeouts.Add(1)
 		return false
 	}
 }
+
+var sendTimeouts atomic.Int64
+
+// Patience: waits that only run out when the code under test hangs. Once that has happened a number of times the
+// behaviour is established and the remaining scenarios use a short wait (a broken tree must not take hours).
+var expiries atomic.Int64
+
+func Patience(d time.Duration) time.Duration {
+	if expiries.Load() > 6 && d > 100*time.Millisecond {
+		return 100 * time.Millisecond
+	}
+	return d
+}
+
+func Expired() { expiries.Add(1) }
 
 func (l *L2) Close() {
 	if l.cancel == nil {
@@ -161,7 +181,8 @@ func (l *L2) Close() {
 	if !l.Retd {
 		select {
 		case <-l.done:
-		case <-time.After(2 * time.Second):
+		case <-time.After(Patience(2 * time.Second)):
+			Expired()
 		}
 	}
 	l2mu.Lock()
@@ -182,7 +203,8 @@ func (l *L2) sendLine(s string) bool {
 	case err := <-l.done:
 		l.returned(err)
 		return false
-	case <-time.After(5 * time.Second):
+	case <-time.After(Patience(5 * time.Second)):
+		Expired()
 		return false
 	}
 }
@@ -230,8 +252,12 @@ func (l *L2) quiesce() {
 		quiesceTimeouts.Add(1)
 		return
 	}
-	dl := time.Now().Add(300 * time.Millisecond)
-	for cap(l.audits) > 0 && len(l.audits) > 0 && time.Now().Before(dl) {
+	dl := time.Now().Add(wait)
+	for cap(l.audits) > 0 && len(l.audits) > 0 {
+		if !time.Now().Before(dl) {
+			quiesceTimeouts.Add(1) // nobody takes lines any more (no parser left behind): established after a few times
+			return
+		}
 		time.Sleep(50 * time.Microsecond)
 	}
 }
@@ -265,6 +291,9 @@ var noReturns int
 func FaultWait() time.Duration { return faultWait() }
 
 func faultWait() time.Duration {
+	if noReturns > 40 {
+		return 15 * time.Millisecond
+	}
 	if noReturns > 8 {
 		return 120 * time.Millisecond
 	}
